@@ -1030,7 +1030,8 @@ def line_box_verticality(box):
 
     for subtree, sub_max_y, sub_min_y in subtrees_with_min_max:
         if subtree.is_floated():
-            dy = min_y - subtree.position_y
+            # Keep the float where it has been placed, relative to the line
+            dy = min_y - box.position_y
         elif subtree.style['vertical_align'] == 'top':
             dy = min_y - sub_min_y
         else:
